@@ -278,8 +278,8 @@ impl<'a, 'tcx> Cx<'a, 'tcx> {
                 format!("\"k\":\"assign\",\"op\":null,\"l\":{},\"r\":{}", self.expr(l), self.expr(r))
             }
             hir::ExprKind::AssignOp(op, l, r) => format!(
-                "\"k\":\"assign\",\"op\":\"{:?}\",\"lty\":\"{}\",\"l\":{},\"r\":{}",
-                op.node,
+                "\"k\":\"assign\",\"op\":\"{}\",\"lty\":\"{}\",\"l\":{},\"r\":{}",
+                format!("{:?}", op.node).trim_end_matches("Assign"),
                 esc(&self.n.ty(self.tck.expr_ty(l))),
                 self.expr(l),
                 self.expr(r)
